@@ -76,7 +76,8 @@ def generate(seed, index, tier):
     if rng.random() < 0.4:
         # non-ASCII identifiers (Latin-1 supplement, Latin Extended, CJK):
         # stored text must survive both the JSON and the pickle encoding
-        marks = ['\u00e9', '\u00df', '\u0142', '\u4e2d', '\u00ff']
+        marks = ['\u00e9', '\u00df', '\u0142', '\u4e2d', '\u00ff', 'json!',
+                 '_json!x']
         n_uni = 0
         for a in apps:
             for m in st['apps'][a]['models']:
